@@ -22,7 +22,8 @@ VERIF = Path(__file__).resolve().parent.parent
 COQ = VERIF / "coq"
 THEORIES = COQ / "theories"
 OCAML = VERIF / "ocaml"
-DRIVER = OCAML / "cbimodel"
+def driver_path(pid):
+    return OCAML / f"cbimodel_{pid}"
 REPO = Path(os.environ.get("VERIF_REPO", "/repo"))
 EVIDENCE = VERIF / "evidence"
 REPLAYS = VERIF / "replays"
@@ -179,10 +180,11 @@ def _lock():
 def gen_tables():
     """Regenerate Gen/*.v from /repo's current source.  Fail-closed."""
     tool = VERIF / "tools" / "gen_tables.py"
-    if not tool.exists():
-        return True, ""
-    rc, out, _ = sh([sys.executable, str(tool), str(REPO), str(THEORIES / "Gen")], timeout=120)
-    return rc == 0, out
+    rc, out = 0, ""
+    if tool.exists():
+        rc, out, _ = sh([sys.executable, str(tool), str(REPO), str(THEORIES / "Gen")], timeout=120)
+    rc2, out2, _ = sh([sys.executable, str(VERIF / "tools" / "gen_project.py")], timeout=60)
+    return rc == 0 and rc2 == 0, out + out2
 
 
 def build(prop_id: str, need_props=True) -> BuildResult:
@@ -202,13 +204,13 @@ def build(prop_id: str, need_props=True) -> BuildResult:
             r.log += out
         files = coq_project_files()
         # 1. models + dispatcher (what the driver needs)
-        rc, out, _ = sh(["make", "-j16", "theories/Extract/Main.vo"], cwd=COQ, timeout=1500)
+        rc, out, _ = sh(["make", "-j16", f"theories/Extract/Main_{prop_id}.vo"], cwd=COQ, timeout=1500)
         r.log += out
         if rc != 0:
             r.ok_model = False
             r.broken.append("model build failed: " + _first_error(out))
         else:
-            ok, out = build_driver()
+            ok, out = build_driver(prop_id)
             r.log += out
             if not ok:
                 r.ok_model = False
@@ -272,20 +274,21 @@ def count_qed(prop_id: str) -> int:
     return n
 
 
-def build_driver():
-    """Extract run_line and compile the OCaml driver if anything is newer than the binary."""
-    gen = OCAML / "gen"
-    gen.mkdir(exist_ok=True)
-    main_vo = THEORIES / "Extract" / "Main.vo"
-    if DRIVER.exists() and DRIVER.stat().st_mtime >= main_vo.stat().st_mtime \
-            and DRIVER.stat().st_mtime >= (OCAML / "driver.ml").stat().st_mtime:
+def build_driver(pid):
+    """Extract run_line for one property and compile its OCaml driver if stale."""
+    gen = OCAML / "gen" / pid
+    gen.mkdir(parents=True, exist_ok=True)
+    main_vo = THEORIES / "Extract" / f"Main_{pid}.vo"
+    drv = driver_path(pid)
+    if drv.exists() and drv.stat().st_mtime >= main_vo.stat().st_mtime \
+            and drv.stat().st_mtime >= (OCAML / "driver.ml").stat().st_mtime:
         return True, ""
     rc, out, _ = sh(["coqc", "-Q", str(THEORIES), "CBI", "-w", "-notation-overridden,-extraction",
-                     str(THEORIES / "Extract" / "Extract.v")], cwd=gen, timeout=600)
+                     str(THEORIES / "Extract" / f"Extract_{pid}.v")], cwd=gen, timeout=600)
     if rc != 0:
         return False, out
     shutil.copy(OCAML / "driver.ml", gen / "driver.ml")
-    rc, out2, _ = sh("ocamlfind ocamlopt -w -a -O2 cbimodel.mli cbimodel.ml driver.ml -o ../cbimodel.new 2>&1 && mv ../cbimodel.new ../cbimodel",
+    rc, out2, _ = sh(f"ocamlfind ocamlopt -w -a -O2 cbimodel.mli cbimodel.ml driver.ml -o cbimodel.new 2>&1 && mv cbimodel.new {drv}",
                      cwd=gen, timeout=600)
     return rc == 0, out + out2
 
@@ -298,7 +301,7 @@ def run_model(prop_id: str, cases_enc: list[str], timeout=1800) -> list:
     if not cases_enc:
         return []
     inp = "".join(f"({prop_id} {c})\n" for c in cases_enc)
-    p = subprocess.run(["bash", "-c", f"ulimit -s unlimited 2>/dev/null; exec {DRIVER}"], input=inp,
+    p = subprocess.run(["bash", "-c", f"ulimit -s unlimited 2>/dev/null; exec {driver_path(prop_id)}"], input=inp,
                        capture_output=True, text=True, timeout=timeout)
     lines = p.stdout.splitlines()
     if p.returncode != 0 or len(lines) != len(cases_enc):
@@ -330,7 +333,7 @@ def vm_crosscheck(prop_id: str, cases_enc: list[str], expected: list) -> tuple[i
         return 0, []
     d = scratch() / "vmx"
     d.mkdir(exist_ok=True)
-    body = ["From Coq Require Import String.", "From CBI Require Import Extract.Main.",
+    body = ["From Coq Require Import String.", f"From CBI Require Import Extract.Main_{prop_id}.",
             "Local Open Scope string_scope.", "Set Printing Width 100000000.", "Set Printing Depth 100000000."]
     for c in cases_enc:
         line = f"({prop_id} {c})"
